@@ -140,7 +140,7 @@ Step(S, dict, st, unused) ==
         IF q + 32 > TotalBits(S) THEN More(st)
         ELSE LET ln == BitsAt(S, q, 16)  nl == BitsAt(S, q + 16, 16)  b0 == (q \div 8) + 4 IN
           IF ln + nl # 65535 THEN Fail(st, "block", q)
-          ELSE IF b0 + ln > Len(S) THEN More(st)
+          ELSE IF b0 + ln > Len(S) THEN [More(st) EXCEPT !.partial = SubSeq(S, b0 + 1, Len(S))]    \* the bytes of the stored block that are present are legitimate output
           ELSE LET st1 == [st EXCEPT !.blk = NewBlk("stored", final, st.pos, st.total)]
                    st2 == FoldLeft(LAMBDA a, k : Push(a, S[b0 + k]), st1, Range1(ln))
                IN CloseBlk(st2, 8 * (b0 + ln))
@@ -176,7 +176,7 @@ Step(S, dict, st, unused) ==
                                !.blk.maxDist = MaxN(st.blk.maxDist, dist), !.blk.minRef = MinN(st.blk.minRef, st.total - dist)]
 
 Init0(startBit) == [phase |-> "hdr", pos |-> startBit, chunks |-> <<>>, cur |-> <<>>, total |-> 0, blocks |-> <<>>,
-                    blk |-> NewBlk("none", FALSE, 0, 0), ll |-> FixedLLTab, d |-> FixedDTab, lenient |-> FALSE, class |-> "", failBit |-> 0, prev |-> ""]
+                    blk |-> NewBlk("none", FALSE, 0, 0), ll |-> FixedLLTab, d |-> FixedDTab, lenient |-> FALSE, class |-> "", failBit |-> 0, prev |-> "", partial |-> <<>>]
 R512 == [i \in 1..512 |-> i]
 RECURSIVE Run(_, _, _)
 Run(S, dict, st) ==
@@ -186,14 +186,14 @@ Run(S, dict, st) ==
 (* ---------------- public results ---------------- *)
 ResultOf(S, st) ==
   [tag |-> CASE st.phase = "done" -> "Valid" [] st.phase = "needmore" -> "NeedMore" [] OTHER -> "Invalid",
-   out |-> Flatten(st), n |-> st.total, endBit |-> st.pos, blocks |-> st.blocks, lenient |-> st.lenient,
+   out |-> IF st.phase = "needmore" THEN Flatten(st) \o st.partial ELSE Flatten(st), n |-> st.total, endBit |-> st.pos, blocks |-> st.blocks, lenient |-> st.lenient,
    class |-> st.class, failBit |-> st.failBit,
    \* input exhausted exactly where a block header is expected (after an end-of-block, or before any block)
    atBoundary |-> (st.phase = "needmore" /\ st.prev = "hdr" /\ st.pos = TotalBits(S)),
    st |-> st]
 Decode(S, dict, startBit) == ResultOf(S, Run(S, dict, Init0(startBit)))
 (* continue a decode that stopped for lack of input, now that S has grown (S must extend the old input) *)
-Resume(S, dict, st) == ResultOf(S, Run(S, dict, IF st.phase = "needmore" THEN [st EXCEPT !.phase = st.prev] ELSE st))
+Resume(S, dict, st) == ResultOf(S, Run(S, dict, IF st.phase = "needmore" THEN [st EXCEPT !.phase = st.prev, !.partial = <<>>] ELSE st))
 DecodeRaw(S) == Decode(S, <<>>, 0)
 EndByte(r) == (r.endBit + 7) \div 8
 =============================================================================
